@@ -33,6 +33,7 @@ def run(ctx):
         worlds.append(cw.render('c10-bigml-%d' % k, cw.big_clean_spec(g, mode, srt, lines=12), ORACLES))
     worlds += [cw.render('c10-tie-%d' % k, sp, ORACLES) for k, sp in enumerate(cw.tie_specs())]
     worlds += [cw.render('c10-eol-%d' % k, sp, ORACLES) for k, sp in enumerate(cw.eol_specs())]
+    worlds += [cw.render('c10-perm-%d' % k, sp, ORACLES) for k, sp in enumerate(cw.perm_specs())]
     worlds += cw.junk_worlds('c10')
     worlds += cw.extra_worlds('c10', g, ctx.tier, ORACLES)
     run_suite(ctx, 'clean.C10', worlds, known=known, chunk=200)
